@@ -27,17 +27,19 @@ package message_test
 //
 // Interpretation of "disbanded channels first" (see c36Model): Disband is
 // reported before every membership/list/participant reason, for every channel
-// type, and is never bypassed by system senders. The relative order of Disband
-// against the sender's own SendBan and against a group's Ban is NOT asserted:
-// the repository's own unit tests pin "sender send ban precedes terminal
-// state", and the group path keeps the legacy Ban-then-Disband order. Both
-// outcomes are permitted by the table there, path agreement is still required,
-// and the occurrences are counted in evidence (literal_deviation.*).
+// type, and is never bypassed by system senders. The clause is read literally:
+// whenever Disband applies, Disband is the only permitted reason. The tree is
+// known to report the sender's SendBan (pinned by its own unit tests) and a
+// group's Ban ahead of Disband; those surface as
+// precedence-disband-not-first:<type>:got=<Reason> (one signature per pair, all
+// occurrences counted under sig.*, smallest witness kept, emitted last). The
+// order among the remaining reasons stays asserted for those items too.
 
 import (
 	"context"
 	"fmt"
 	"math/rand/v2"
+	"sort"
 	"strings"
 	"sync"
 	"sync/atomic"
@@ -210,6 +212,7 @@ type c36Expect struct {
 	Trust     string           // "", "sysuid", "sysdev", "sysreceiver"
 	Bypassed  int              // non-terminal failing checks a trusted sender skipped
 	Free      bool             // request-scoped: no permission check at all
+	Disbanded bool             // Disband is one of the applicable reasons
 }
 
 func (f *c36Facts) row(id string, ty uint8) (metadb.Channel, bool) {
@@ -346,17 +349,14 @@ func c36Model(f *c36Facts, cfg c36Config, cmd message.SendCommand) c36Expect {
 		exp.Permitted = []message.Reason{message.ReasonSuccess}
 		return exp
 	}
+	// Literal reading of "disbanded channels first": Disband outranks every
+	// other applicable reason, for system and non-system senders alike. Among
+	// the remaining reasons the documented order decides.
 	exp.Permitted = []message.Reason{exp.Chain[0]}
-	// Disband against SendBan / Ban: order not asserted (see file comment).
-	if exp.Chain[0] != message.ReasonDisband {
-		for _, r := range exp.Chain {
-			if r == message.ReasonDisband {
-				exp.Permitted = append(exp.Permitted, r)
-				break
-			}
-			if r != message.ReasonSendBan && r != message.ReasonBan {
-				break
-			}
+	for _, r := range exp.Chain {
+		if r == message.ReasonDisband {
+			exp.Permitted = []message.Reason{message.ReasonDisband}
+			exp.Disbanded = true
 		}
 	}
 	return exp
@@ -506,6 +506,11 @@ func (w *c36World) genItem(rng *rand.Rand, tag string) c36Item {
 
 // ---------------------------------------------------------------- harness
 
+type c36Dev struct {
+	size    int
+	witness map[string]any
+}
+
 type c36Obs struct {
 	Reason    string `json:"reason"`
 	Err       string `json:"err,omitempty"`
@@ -546,13 +551,14 @@ func TestVerifC36(t *testing.T) {
 	defer r.Finish()
 	r.SetRule("A world = one PRNG fact base over a shared id universe (3-6 ids used as uids AND as channel ids of every type: rows with Ban/Disband/SendBan/AllowStranger, subscriber/deny/allow lists under every type, person-pair and agent-pair rows, system UIDs, system device, receiver-allowlist switch). Each world serves several batches of 1-24 sends mixing all channel types, command channels, normalised/unnormalised person ids, duplicate scopes, session lanes and two context-deadline cohorts to four paths (batched raw-fact SendBatch, per-send SendBatch, cached per-send SendBatch, single Send). One evaluation = one item compared across the paths and against the precedence model. Non-trivial = at least two failing checks apply at once, or a trusted sender skips at least one failing non-terminal check; distinct by (channel type, trust class, chain of applicable reasons, observed reason).")
 	r.Assume("The fact base does not change during the life of an App (the TTL cache is allowed to be stale by design; the clock handed to it is frozen).")
-	r.Assume("Order of Disband against the sender's SendBan and against a group's Ban is not asserted (repository unit tests pin SendBan first; the group path keeps the legacy Ban-then-Disband order); both are permitted, path agreement is still required, occurrences are counted as literal_deviation.*.")
+	r.Assume("'Disbanded channels first' is read literally: when Disband applies no other reason is permitted; deviations are reported as precedence-disband-not-first:<type>:got=<Reason> (one kept witness per signature, all counted under sig.*).")
 	r.Assume("Person sends whose id cannot be decoded while NormalizePersonChannel=false are outside the domain (every entry adapter sets the flag for person channels); they are driven and only counted.")
 
 	worlds := r.N(8000, 90000)
 	frozen := time.Unix(1_700_000_000, 0)
 	far := []time.Time{time.Now().Add(6 * time.Hour), time.Now().Add(7 * time.Hour)}
 	var batchCalls, batchReads, perSendReads int64
+	disbandDev := map[string]c36Dev{}
 
 	for wi := 0; wi < worlds; wi++ {
 		if r.Skip(wi) {
@@ -664,6 +670,11 @@ func TestVerifC36(t *testing.T) {
 				}
 				witness := func() map[string]any {
 					src := strings.TrimSuffix(it.cmd.ChannelID, channelid.CommandChannelSuffix)
+					if it.cmd.ChannelType == c36Person && it.cmd.NormalizePersonChannel {
+						if canon, err := channelid.NormalizePersonChannel(it.cmd.FromUID, src); err == nil {
+							src = canon
+						}
+					}
 					row, found := w.facts.row(src, it.cmd.ChannelType)
 					own, ownFound := w.facts.row(it.cmd.FromUID, c36Person)
 					chain := []string{}
@@ -672,7 +683,7 @@ func TestVerifC36(t *testing.T) {
 					}
 					return map[string]any{
 						"command": map[string]any{"from": it.cmd.FromUID, "device": it.cmd.DeviceID, "channel_id": it.cmd.ChannelID, "channel_type": it.cmd.ChannelType, "normalize_person": it.cmd.NormalizePersonChannel, "request_scoped": it.cmd.RequestScoped, "message_scoped_uids": it.cmd.MessageScopedUIDs},
-						"config":  w.cfg, "channel_row_found(as given id)": found, "channel_row(as given id)": row,
+						"config":  w.cfg, "source_channel_id": src, "source_channel_row_found": found, "source_channel_row": row,
 						"sender_row_found": ownFound, "sender_row": own,
 						"model_chain": chain, "model_trust": exp.Trust, "model_want_err": exp.WantErr,
 						"observed": per, "batch_items": len(items), "kind": it.kind,
@@ -742,6 +753,31 @@ func TestVerifC36(t *testing.T) {
 						ok = true
 					}
 				}
+				sysBypass := (exp.Trust == "sysuid" || exp.Trust == "sysdev") && o.Reason == "Success"
+				if !ok && exp.Disbanded && !sysBypass {
+					// Deviation from the literal clause "disbanded channels first".
+					// One signature per (type, reason); all occurrences counted, the
+					// smallest witness kept and emitted at the end of the run so that
+					// any other violation keeps its place in the bounded report.
+					sig := fmt.Sprintf("precedence-disband-not-first:%s:got=%s", tn, o.Reason)
+					r.Count("sig."+sig, 1)
+					size := len(exp.Chain)*1000 + len(items)
+					if cur, seen := disbandDev[sig]; !seen || size < cur.size {
+						disbandDev[sig] = c36Dev{size: size, witness: witness()}
+					}
+					// the order among the other reasons stays asserted
+					first := ""
+					for _, x := range exp.Chain {
+						if x != message.ReasonDisband {
+							first = c36ReasonName(x)
+							break
+						}
+					}
+					if first != "" && o.Reason != first {
+						r.Violation(fmt.Sprintf("precedence:%s:trust=%s:want=Disband|%s:got=%s", tn, exp.Trust, first, o.Reason), witness())
+					}
+					continue
+				}
 				if !ok {
 					want := []string{}
 					for _, p := range exp.Permitted {
@@ -757,9 +793,6 @@ func TestVerifC36(t *testing.T) {
 					}
 					r.Violation(sig, witness())
 					continue
-				}
-				if len(exp.Permitted) > 1 && o.Reason != "Disband" {
-					r.Count("literal_deviation."+strings.ToLower(o.Reason)+"_reported_for_disbanded_channel", 1)
 				}
 				if exp.Trust != "" {
 					r.Count("trust."+exp.Trust, 1)
@@ -793,6 +826,23 @@ func TestVerifC36(t *testing.T) {
 		if r.NumViolations() >= 10 {
 			break
 		}
+	}
+	// deferred emission: unexpected (type, reason) pairs first
+	devSigs := make([]string, 0, len(disbandDev))
+	for sig := range disbandDev {
+		devSigs = append(devSigs, sig)
+	}
+	known := func(sig string) bool {
+		return strings.HasSuffix(sig, ":got=SendBan") || sig == "precedence-disband-not-first:group:got=Ban"
+	}
+	sort.Slice(devSigs, func(i, j int) bool {
+		if known(devSigs[i]) != known(devSigs[j]) {
+			return !known(devSigs[i])
+		}
+		return devSigs[i] < devSigs[j]
+	})
+	for _, sig := range devSigs {
+		r.Violation(sig, disbandDev[sig].witness)
 	}
 	r.Count("worlds", worlds)
 	r.Count("batch_port_calls", int(batchCalls))
